@@ -185,6 +185,7 @@ def run(prog, rep):
     rows = []
     for tname in ("EventsDataType.singleEvent", "EventsDataType.eventSequence"):
         for d in [Desc("list", length=0), Desc("list", length=1), Desc("list", length=2), Desc("list", length=3), Desc("ndarray", (2,)), Desc("ndarray", (1,)),
+                  Desc("ndarray", (1,), dtype="<f4"), Desc("ndarray", (2,), dtype="<f4"), Desc("ndarray", (4,), dtype="<f4"), Desc("ndarray", (0,), dtype="<f4"),
                   Desc("tuple", length=2), Desc("NoneType"), Desc("int"), Desc("ndarray", ())]:
             env = {"values": d, "type": ("sym", tname)}
             try:
